@@ -57,6 +57,9 @@ func (t *W) Case(class string, nontrivial bool, format string, a ...interface{})
 	}
 	t.w.WriteString(line)
 	t.w.WriteByte('\n')
+	if t.lines%200 == 0 || os.Getenv("VERIF_FLUSH") != "" {
+		t.w.Flush()
+	}
 }
 
 func (t *W) Count(class string, n int) {
